@@ -2,6 +2,7 @@ package rules
 
 import (
 	"fmt"
+	"go/types"
 	"sort"
 	"strings"
 
@@ -395,4 +396,20 @@ func retFields(pt *core.Path, ri int) (map[string]string, map[string]ssa.Value, 
 		}
 	}
 	return out, vals, true
+}
+
+type ssaValue = ssa.Value
+
+// msgType returns the descriptor of uint64(types.<name>) — the wire number of
+// a message type constant — or "" when it does not resolve.
+func (r *R) msgType(name string) string {
+	pk := r.p.ByRel["message/types"]
+	if pk == nil {
+		return ""
+	}
+	c, ok := pk.Types.Scope().Lookup(name).(*types.Const)
+	if !ok {
+		return ""
+	}
+	return c.Val().ExactString() + ":uint64"
 }
